@@ -1,16 +1,18 @@
 #!/bin/bash
 # usage: seedtest.sh <seeded-dir> [tier] [checks...]
-# Applies <seeded-dir>/patch.diff to /repo, runs the given checks (default: the
-# property named in meta.json) and restores /repo. Prints one line per check.
+# Copies /repo (HEAD) to a scratch directory outside /repo and /verif, applies
+# <seeded-dir>/patch.diff there, runs the given checks (default: the property
+# named in meta.json) against the copy (VERIF_REPO) and removes the copy.
+# /repo itself is not touched. Prints one line per check.
 d="$(cd "$1" && pwd)"; tier="${2:-quick}"; shift; shift
-cd /repo || exit 2
-if ! git diff --quiet; then echo "/repo has uncommitted changes"; exit 2; fi
-git apply "$d/patch.diff" || { echo "patch does not apply"; exit 2; }
-trap 'cd /repo && git checkout -q -- . && git clean -fdq' EXIT
+scratch=$(mktemp -d /root/seedrepo-XXXXXX)
+trap 'rm -rf "$scratch"' EXIT
+git -C /repo archive HEAD | tar -x -C "$scratch" || exit 2
+(cd "$scratch" && git init -q . && git apply "$d/patch.diff") || { echo "patch does not apply"; exit 2; }
 checks="$@"
 if [ -z "$checks" ]; then checks=$(python3 -c "import json;print(json.load(open('$d/meta.json'))['property'])"); fi
 cd /verif
 for c in $checks; do
-  out=$(./run/check.sh $c $tier 2>&1); rc=$?
+  out=$(VERIF_REPO="$scratch" ./run/check.sh $c $tier 2>&1); rc=$?
   echo "seed=$(basename $d) check=$c tier=$tier rc=$rc :: $(echo "$out" | grep -E '^  what:' | head -1 | cut -c1-260)"
 done
